@@ -57,9 +57,10 @@ struct ScriptedWrite {
 }
 
 /// hard errors come in every kind, also kinds that look transient on other kinds of output
-const HARD_KINDS: [io::ErrorKind; 8] = [
+const HARD_KINDS: [io::ErrorKind; 12] = [
     io::ErrorKind::Other, io::ErrorKind::WouldBlock, io::ErrorKind::BrokenPipe, io::ErrorKind::TimedOut,
     io::ErrorKind::ConnectionReset, io::ErrorKind::StorageFull, io::ErrorKind::PermissionDenied, io::ErrorKind::UnexpectedEof,
+    io::ErrorKind::InvalidInput, io::ErrorKind::InvalidData, io::ErrorKind::Unsupported, io::ErrorKind::OutOfMemory,
 ];
 static HARD_COUNTER: std::sync::atomic::AtomicUsize = std::sync::atomic::AtomicUsize::new(0);
 fn hard_error() -> io::Error {
@@ -397,6 +398,13 @@ fn scripted(seed: u64, err_pm: u64, flush_fail: bool) -> Arc<StreamShared> {
     let sh = StreamShared::new(seed);
     sh.set_script(move |k| match k {
         EntryKind::Id(id) => outcome_for(*id, seed, err_pm),
+        // the in-band error report is an entry like any other to the stream: it may be refused or
+        // fail, which must change nothing for the entries after it
+        EntryKind::ErrorReport(_) => match seed % 3 {
+            0 => Outcome::Ok,
+            1 => Outcome::Io,
+            _ => Outcome::Validation,
+        },
         _ => Outcome::Ok,
     });
     sh.flush_fail.store(flush_fail, Ordering::Relaxed);
